@@ -44,3 +44,30 @@ Section GetIndex.
     pose proof (up_bound (S n) idx n Hi). pose proof (down_le (S n) (up (S n) idx n)). lia.
   Qed.
 End GetIndex.
+
+(* --- the LINTERP table reader (common.c:_GD_ReadLinterpFile): row i is stored, then
+   i++ and, when i has reached the allocation, the allocation grows by `chunk` rows.
+   State = (rows stored, rows allocated); `ge` says the growth test is i >= buf_len. *)
+Definition lut_step (chunk : nat) (ge : bool) (s : nat * nat) : nat * nat :=
+  let (i, buf) := s in
+  let i' := S i in
+  if (if ge then Nat.leb buf i' else Nat.ltb buf i') then (i', buf + chunk) else (i', buf).
+
+Definition lut_inv (s : nat * nat) : Prop := fst s < snd s.
+
+Lemma lut_step_inv chunk s : 0 < chunk -> lut_inv s -> lut_inv (lut_step chunk true s).
+Proof.
+  destruct s as [i buf]. unfold lut_inv, lut_step. cbn [fst snd]. intros Hc Hi.
+  destruct (Nat.leb_spec buf (S i)); cbn [fst snd]; lia.
+Qed.
+
+Lemma lut_rows_in_bounds chunk : 0 < chunk ->
+  forall n, lut_inv (Nat.iter n (lut_step chunk true) (0, chunk)).
+Proof.
+  intros Hc. induction n as [|n IH]; cbn [Nat.iter]; [unfold lut_inv; cbn; exact Hc|].
+  apply lut_step_inv; assumption.
+Qed.
+
+(* with the test i > buf_len the row after a full chunk is stored one past the allocation *)
+Lemma lut_gt_refuted : ~ lut_inv (Nat.iter 3 (lut_step 3 false) (0, 3)).
+Proof. vm_compute. lia. Qed.
